@@ -2533,7 +2533,9 @@ void abbreviation_from_bracket(const char * source, scratch_pad * scratch, token
 void read_table_column_alignments(const char * source, token * table, scratch_pad * scratch) {
 	token * walker = table->child;
 
-	scratch->table_alignment[0] = '\0';
+	// Cells beyond the columns of the separator line have no alignment -- do not
+	// let them pick up what an earlier table left behind
+	memset(scratch->table_alignment, '\0', sizeof(scratch->table_alignment));
 	scratch->table_column_count = 0;
 
 	// The header is normally the first child, but a list marker may precede it
